@@ -32,7 +32,8 @@ type Case struct {
 	Stm       int   `json:"stm"`
 	Driver    bool  `json:"driver,omitempty"`
 	Block     bool  `json:"block,omitempty"`
-	Ponder    bool  `json:"ponder,omitempty"` // go ponder ... then ponderhit: the deadline armed at ponderhit is judged
+	Ponder    bool  `json:"ponder,omitempty"`     // go ponder ... then ponderhit: the deadline armed at ponderhit is judged
+	PonderOpt bool  `json:"ponder_opt,omitempty"` // the Ponder option is switched on, but the go command is an ordinary timed one
 }
 
 func limits(c Case) (bool, int64, int64) {
@@ -183,6 +184,9 @@ func driverCase(c Case, rec *evid.Rec) error {
 	_, soft, hard := limits(c)
 	m := &mock{block: c.Block}
 	ses := eng.NewSession(uci.WithSearch(m))
+	if c.PonderOpt {
+		ses.Send("setoption name Ponder value true")
+	}
 	if c.Stm == 1 {
 		ses.Send("position startpos moves e2e4")
 	}
@@ -315,7 +319,7 @@ func TestC14(t *testing.T) {
 		})
 		// blocking search: the deadline must fire at all (wall clock observation, generous ceiling, three attempts)
 		for i := 0; i < evid.Pick(2, 6); i++ {
-			c := Case{Remaining: 40 + int64((int(evid.Seed())+37*i)%81), Inc: 0, OppTime: 1000, OppInc: 0, Stm: i % 2, Driver: true, Block: true}
+			c := Case{Remaining: 40 + int64((int(evid.Seed())+37*i)%81), Inc: 0, OppTime: 1000, OppInc: 0, Stm: i % 2, Driver: true, Block: true, PonderOpt: i%2 == 1}
 			var err error
 			for attempt := 0; attempt < 3; attempt++ {
 				if err = driverCase(c, rec); err == nil {
